@@ -26,75 +26,154 @@ func isRetCall(in ssa.Instruction) bool {
 // and returns a path whose event count differs from want, if any. Events are
 // block-internal instructions satisfying ev and traversals of the given edges.
 func pathEventCounts(fn *ssa.Function, ev func(ssa.Instruction) bool, evEdges []Edge, want int) (bad []*ssa.BasicBlock, got int, nPaths int) {
-	multi := multiConds(fn)
-	isEv := map[Edge]bool{}
-	for _, e := range evEdges {
-		isEv[e] = true
+	return pathEventCountsDeep(fn, ev, func(f *ssa.Function) []Edge {
+		if f == fn {
+			return evEdges
+		}
+		return nil
+	}, want, 0)
+}
+
+// pathEventCountsDeep is pathEventCounts with helper calls accounted for: a
+// static call to a same-package repository function contributes the set of
+// event counts of that function's own entry->return paths (computed the same
+// way, to the given depth), so that moving the tail of a function into a
+// helper does not change the count.
+func pathEventCountsDeep(fn *ssa.Function, ev func(ssa.Instruction) bool, mkEdges func(*ssa.Function) []Edge, want int, depth int) (bad []*ssa.BasicBlock, got int, nPaths int) {
+	memo := map[*ssa.Function]map[int]bool{}
+	var summarize func(h *ssa.Function, d int) map[int]bool
+	// walk enumerates the paths of f; at each return it calls atReturn with the set of counts
+	var walk func(f *ssa.Function, d int, atReturn func(path []*ssa.BasicBlock, cnts map[int]bool) bool)
+	walk = func(f *ssa.Function, d int, atReturn func(path []*ssa.BasicBlock, cnts map[int]bool) bool) {
+		multi := multiConds(f)
+		isEv := map[Edge]bool{}
+		for _, e := range mkEdges(f) {
+			isEv[e] = true
+		}
+		var path []*ssa.BasicBlock
+		onPath := map[*ssa.BasicBlock]bool{}
+		stop := false
+		paths := 0
+		var dfs func(b *ssa.BasicBlock, cnts map[int]bool, known map[ssa.Value]bool)
+		dfs = func(b *ssa.BasicBlock, cnts map[int]bool, known map[ssa.Value]bool) {
+			if stop || onPath[b] || paths > 20000 {
+				return
+			}
+			onPath[b] = true
+			path = append(path, b)
+			defer func() { onPath[b] = false; path = path[:len(path)-1] }()
+			for _, in := range b.Instrs {
+				if ev(in) {
+					cnts = shiftCounts(cnts, map[int]bool{1: true})
+					continue
+				}
+				if d > 0 {
+					if ci, ok := in.(*ssa.Call); ok {
+						if h := staticCallee(ci); h != nil && h.Blocks != nil && h != fn && h != f && theProg != nil && theProg.IsRepoFn(h) && samePkg(h, fn) {
+							s := summarize(h, d-1)
+							if len(s) == 0 {
+								return // the helper never returns
+							}
+							cnts = shiftCounts(cnts, s)
+						}
+					}
+				}
+			}
+			if len(b.Instrs) > 0 {
+				switch b.Instrs[len(b.Instrs)-1].(type) {
+				case *ssa.Return:
+					paths++
+					if f == fn {
+						nPaths++
+					}
+					if atReturn(path, cnts) {
+						stop = true
+					}
+					return
+				case *ssa.Panic:
+					return
+				}
+			}
+			// blocks ending in a call that never returns (log.Fatal*, os.Exit)
+			for _, in := range b.Instrs {
+				if ci, ok := in.(ssa.CallInstruction); ok && exitCallees[calleeName(ci)] {
+					return
+				}
+			}
+			var ck ssa.Value
+			var cpos, isIf bool
+			if ifi, ok := b.Instrs[len(b.Instrs)-1].(*ssa.If); ok {
+				isIf = true
+				ck, cpos = condKey(ifi.Cond)
+			}
+			for i, s := range b.Succs {
+				nk := known
+				if isIf && multi[ck] {
+					out := (i == 0) == cpos
+					if prev, ok := known[ck]; ok {
+						if prev != out {
+							continue
+						}
+					} else {
+						nk = copyKnown(known)
+						nk[ck] = out
+					}
+				}
+				c2 := cnts
+				if isEv[Edge{b, i}] {
+					c2 = shiftCounts(cnts, map[int]bool{1: true})
+				}
+				dfs(s, c2, nk)
+			}
+		}
+		dfs(f.Blocks[0], map[int]bool{0: true}, map[ssa.Value]bool{})
 	}
-	var path []*ssa.BasicBlock
-	onPath := map[*ssa.BasicBlock]bool{}
+	summarize = func(h *ssa.Function, d int) map[int]bool {
+		if s, ok := memo[h]; ok {
+			return s
+		}
+		memo[h] = map[int]bool{0: true} // recursion guard
+		out := map[int]bool{}
+		walk(h, d, func(_ []*ssa.BasicBlock, cnts map[int]bool) bool {
+			for k := range cnts {
+				out[k] = true
+			}
+			return false
+		})
+		memo[h] = out
+		return out
+	}
 	var found []*ssa.BasicBlock
 	foundCnt := 0
-	var dfs func(b *ssa.BasicBlock, cnt int, known map[ssa.Value]bool)
-	dfs = func(b *ssa.BasicBlock, cnt int, known map[ssa.Value]bool) {
-		if found != nil || onPath[b] || nPaths > 20000 {
-			return
-		}
-		onPath[b] = true
-		path = append(path, b)
-		defer func() { onPath[b] = false; path = path[:len(path)-1] }()
-		for _, in := range b.Instrs {
-			if ev(in) {
-				cnt++
+	walk(fn, depth, func(path []*ssa.BasicBlock, cnts map[int]bool) bool {
+		for k := range cnts {
+			if k != want {
+				found = append([]*ssa.BasicBlock(nil), path...)
+				foundCnt = k
+				return true
 			}
 		}
-		if len(b.Instrs) > 0 {
-			switch b.Instrs[len(b.Instrs)-1].(type) {
-			case *ssa.Return:
-				nPaths++
-				if cnt != want {
-					found = append([]*ssa.BasicBlock(nil), path...)
-					foundCnt = cnt
-				}
-				return
-			case *ssa.Panic:
-				return
+		return false
+	})
+	return found, foundCnt, nPaths
+}
+
+// shiftCounts: the set {a+b | a in x, b in y}, capped to small values.
+func shiftCounts(x, y map[int]bool) map[int]bool {
+	if len(y) == 1 && y[0] {
+		return x
+	}
+	out := map[int]bool{}
+	for a := range x {
+		for b := range y {
+			if a+b <= 8 {
+				out[a+b] = true
+			} else {
+				out[9] = true
 			}
-		}
-		// blocks ending in a call that never returns (log.Fatal*, os.Exit)
-		for _, in := range b.Instrs {
-			if ci, ok := in.(ssa.CallInstruction); ok && exitCallees[calleeName(ci)] {
-				return
-			}
-		}
-		var ck ssa.Value
-		var cpos, isIf bool
-		if ifi, ok := b.Instrs[len(b.Instrs)-1].(*ssa.If); ok {
-			isIf = true
-			ck, cpos = condKey(ifi.Cond)
-		}
-		for i, s := range b.Succs {
-			nk := known
-			if isIf && multi[ck] {
-				out := (i == 0) == cpos
-				if prev, ok := known[ck]; ok {
-					if prev != out {
-						continue
-					}
-				} else {
-					nk = copyKnown(known)
-					nk[ck] = out
-				}
-			}
-			c2 := cnt
-			if isEv[Edge{b, i}] {
-				c2++
-			}
-			dfs(s, c2, nk)
 		}
 	}
-	dfs(fn.Blocks[0], 0, map[ssa.Value]bool{})
-	return found, foundCnt, nPaths
+	return out
 }
 
 func runC16(c *Ctx) {
@@ -126,7 +205,7 @@ func runC16(c *Ctx) {
 					c.check(path == nil, rule1, "Start: every slot taken reaches runSession", p.instrPos(ci), "", "after tokens.get() a path continues without calling runSession (slot leaked)", p.pathString(path)...)
 				}
 			case "(*proxy/lib.tokens_t).ret":
-				okOwner := fn == run || fn == dch
+				okOwner := belongsTo(fn, run) || belongsTo(fn, dch)
 				c.check(okOwner, rule1, p.FnName(fn)+" releases a slot", p.instrPos(ci), "", "a slot is released outside runSession/datachannelHandler: some session releases twice")
 			}
 		}
@@ -139,21 +218,28 @@ func runC16(c *Ctx) {
 			dataChan, _ = op.Instr.(*ssa.MakeChan)
 		}
 	}
-	if dataChan != nil {
-		for _, op := range chanOpsIn(p, run) {
-			if op.Dir == chRecv && op.Sel != nil && strip(op.Chan) == ssa.Value(dataChan) {
+	handIn := func(f *ssa.Function) []Edge {
+		var out []Edge
+		for _, op := range chanOpsIn(p, f) {
+			if op.Dir == chRecv && op.Sel != nil && dataChan != nil && xforms(op.Chan, func(x ssa.Value) bool { return x == ssa.Value(dataChan) }) {
 				if e, ok := selectCaseEdge(op.Sel, op.State); ok {
-					handEdges = append(handEdges, e)
+					out = append(out, e)
 				}
 			}
+		}
+		return out
+	}
+	if dataChan != nil {
+		for _, f := range helperFns(run, 2) {
+			handEdges = append(handEdges, handIn(f)...)
 		}
 	}
 	if dataChan == nil || len(handEdges) != 1 {
 		c.undecided(rule1, "runSession: hand-off select on the data-channel signal", p.Pos(run.Pos()), "no 'case <-dataChan' found on a channel made in runSession")
 	} else {
-		bad, got, n := pathEventCounts(run, isRetCall, handEdges, 1)
+		bad, got, n := pathEventCountsDeep(run, isRetCall, handIn, 1, 2)
 		c.count("runSession paths enumerated", n)
-		c.check(bad == nil && n >= 7, rule1, "runSession releases its slot exactly once on every path", p.Pos(run.Pos()), fmt.Sprintf("%d entry-to-return paths, each with exactly one release event (tokens.ret() or the hand-off edge)", n),
+		c.check(bad == nil && n >= 3, rule1, "runSession releases its slot exactly once on every path", p.Pos(run.Pos()), fmt.Sprintf("%d entry-to-return paths, each with exactly one release event (tokens.ret() or the hand-off edge)", n),
 			fmt.Sprintf("a path of runSession carries %d release events instead of 1 (paths enumerated: %d)", got, n), p.pathString(bad)...)
 		// the channel handed to makePeerConnectionFromOffer is this dataChan, and the handler is the adaptor
 		for _, ci := range callsIn(run) {
@@ -271,11 +357,11 @@ func runC16(c *Ctx) {
 		}
 		okE := errNilEdges(run, cc, 1)
 		n := 0
-		for _, in := range instrsWhere(run, isRetCall) {
+		for _, d := range deepInstrs(run, 2, isRetCall) {
 			// only releases after the successful creation
 			after := false
 			for _, e := range okE {
-				if reachPath(e.To(), in.Block(), nil) != nil {
+				if reachPath(e.To(), d.Top.Block(), nil) != nil {
 					after = true
 				}
 			}
@@ -283,20 +369,19 @@ func runC16(c *Ctx) {
 				continue
 			}
 			n++
-			var path []*ssa.BasicBlock
+			var starts []*ssa.BasicBlock
 			for _, e := range okE {
-				if pth := psSearch(e.To(), nil, func(b *ssa.BasicBlock) bool {
-					for _, x := range b.Instrs {
-						if c2, ok := x.(ssa.CallInstruction); ok && strings.HasSuffix(calleeName(c2), "PeerConnection).Close") && isResultOfCall(callArgs(c2)[0], cc, 0) {
-							return true
-						}
-					}
-					return false
-				}, func(b *ssa.BasicBlock) bool { return b == in.Block() }); pth != nil {
-					path = pth
-				}
+				starts = append(starts, e.To())
 			}
-			c.check(path == nil, rule4, "runSession closes the peer connection before releasing the slot", p.instrPos(in), "", "a failure exit after the peer connection was created releases the slot without closing the connection", p.pathString(path)...)
+			path := unblockedAlong(d, starts, func(b *ssa.BasicBlock) bool {
+				for _, x := range b.Instrs {
+					if c2, ok := x.(ssa.CallInstruction); ok && strings.HasSuffix(calleeName(c2), "PeerConnection).Close") && isResultOfCall(callArgs(c2)[0], cc, 0) {
+						return true
+					}
+				}
+				return false
+			})
+			c.check(path == nil, rule4, "runSession closes the peer connection before releasing the slot", p.instrPos(d.In), "", "a failure exit after the peer connection was created releases the slot without closing the connection", p.pathString(path)...)
 		}
 		if n < 2 {
 			c.undecided(rule4, "runSession failure exits after the peer connection exists", p.instrPos(cc), fmt.Sprintf("found %d, expected the answer-failure and the timeout exits", n))
@@ -306,6 +391,13 @@ func runC16(c *Ctx) {
 
 func isResultOfCall(v ssa.Value, call *ssa.Call, idx int) bool {
 	c, i, ok := callResult(v)
+	return ok && c == call && i == idx
+}
+
+// isResultOfCall1 is isResultOfCall without cross-function resolution: v itself
+// (after local stripping) is result idx of call.
+func isResultOfCall1(v ssa.Value, call *ssa.Call, idx int) bool {
+	c, i, ok := callResult1(strip(v))
 	return ok && c == call && i == idx
 }
 
